@@ -201,9 +201,9 @@ def build_props(pid: str, *, timeout: int = 900, extra_targets: list[str] = ()) 
     broken: list[str] = []
     env = dict(os.environ, FORCE_REBUILD=f"Props/{pid}")
     rc, log = sh(["timeout", str(timeout), str(COQ / "mk.sh"), f"Props/{pid}.vo", *extra_targets], timeout=timeout + 30, env=env)
-    for ln in log.splitlines():
-        if ln.startswith("GENERATOR-FAILED"):
-            broken.append("generator: " + ln)
+    # A failing generator leaves a stub .v that does not compile, so it breaks exactly the
+    # cones that depend on its output; the GENERATOR-FAILED line is kept in the log only.
+    gen_failed = [ln for ln in log.splitlines() if ln.startswith("GENERATOR-FAILED")]
     hyg = hygiene()
     assumptions: dict[str, str] = {}
     if rc == 0:
@@ -214,7 +214,8 @@ def build_props(pid: str, *, timeout: int = 900, extra_targets: list[str] = ()) 
             assumptions[name] = "closed" if c.startswith("Closed") else c.strip()
     else:
         m = re.search(r'File "\./([^"]+)", line (\d+).*?\n(Error:.*?)(?:\n\n|\Z)', log, re.S)
-        broken.append(f"coq: {m.group(1)}:{m.group(2)} {m.group(3)[:300]}" if m else "coq build failed: " + log[-400:])
+        broken.append((f"coq: {m.group(1)}:{m.group(2)} {m.group(3)[:300]}" if m else "coq build failed: " + log[-400:])
+                      + ("  [" + "; ".join(gen_failed)[:300] + "]" if gen_failed and m and m.group(1).startswith("Gen/") else ""))
     missing = [x for x in theorems if x not in printed]
     if missing:
         broken.append("no Print Assumptions for: " + ", ".join(missing))
